@@ -22,7 +22,7 @@ RULE = ("rolling_window and expanding_window on point clouds given as 1-D and 2-
         "int64 / int32 arrays; easting, northing and the extra coordinate also with DIFFERENT dtypes (int32/int64/float32/float64 in all "
         "orders) and values needing the wider type (fractions next to integers, 7.5e6 + fractions next to float32), regions also smaller "
         "than the data extent with both adjust modes; integer coordinates with fractional centres, sizes and steps (C14); the model always receives the logical C-order ravel. Every call is made twice on the same argument objects "
-        "(identical result, arguments unchanged); a sequence stream calls either window function, modifies the same array objects in place "
+        "(identical result, arguments unchanged); region, centre and sizes passed as tuple / list / float64 / integer ndarray in rotation, the same objects for both calls, the second answer evaluated against the model when it differs; a sequence stream calls either window function, modifies the same array objects in place "
         "(shift, scale, centre, overwrite) and calls again (must match the model on the new values and a call on fresh copies); shape= "
         "with n_north != n_east on clearly non-square regions (also after shrinking) and windows equal to a side. Non-trivial = the call returns windows for a non-empty cloud; distinct = distinct argument tuples.")
 ASSUMPTIONS = [
@@ -75,9 +75,11 @@ def same_tuples(a, b):
     return len(a) == len(b) and all(len(x) == len(y) and all(np.array_equal(p, q) for p, q in zip(x, y)) for x, y in zip(a, b))
 
 
-def rolling_case(vd, spec, size, spacing, shape, region, adj, kind, pre=None):
+def rolling_case(vd, spec, size, spacing, shape, region, adj, kind, pre=None, rkind="tuple"):
     """spec: [(values, layout, dtype), ...] (harness/layouts.py); the model gets the logical C-order ravel.
-    pre = (first, ops): an earlier call on the same array objects followed by in-place modifications"""
+    pre = (first, ops): an earlier call on the same array objects followed by in-place modifications.
+    rkind: the kind of object the region is passed as; the SAME object is used for both calls and, when the second
+    result differs from the first, it is the second one that is evaluated against the model"""
     coords = layouts.build(spec)
     if pre:
         layouts.first_call(vd, coords, pre[0])
@@ -85,14 +87,19 @@ def rolling_case(vd, spec, size, spacing, shape, region, adj, kind, pre=None):
     snap = layouts.snapshot(coords)
     east, north = coords[0], coords[1]
     kw = {"size": size}
+    kwsrc = ["size=%r" % (size,)]
     if spacing is not None:
         kw["spacing"] = spacing
+        kwsrc.append("spacing=%r" % (spacing,))
     if shape is not None:
         kw["shape"] = shape
+        kwsrc.append("shape=%r" % (shape,))
     if region is not None:
-        kw["region"] = region
+        kw["region"], rsrc = layouts.arg_obj(rkind, region)
+        kwsrc.append("region=r")
     if adj != 0:
         kw["adjust"] = ADJ[adj]
+        kwsrc.append("adjust=%r" % ADJ[adj])
     bad = None
     try:
         wc, idx = vd.rolling_window(coords, **kw)
@@ -113,11 +120,20 @@ def rolling_case(vd, spec, size, spacing, shape, region, adj, kind, pre=None):
             obs = {"centres_east": wc[0].tolist(), "centres_north": wc[1].tolist(),
                    "indices": [[[a.tolist() for a in t] for t in row] for row in idx], "direct_indexing_works": works,
                    "second_call_identical_and_arguments_unchanged": bool(stable)}
+            if region is not None:
+                obs["region_object_unchanged"] = layouts.same_values(kw["region"], region)
+            if not stable and layouts.unchanged(coords, snap) and all(isinstance(a, np.ndarray) and a.ndim == 2 for a in wc2) \
+                    and isinstance(idx2, np.ndarray) and idx2.ndim == 2 and all(tuple_ok(t, east.ndim) for t in idx2.ravel()):
+                # the second call on the same argument objects answered differently: evaluate THAT answer
+                obs["second_call"] = {"centres_east": wc2[0].tolist(), "centres_north": wc2[1].tolist(),
+                                      "indices": [[[a.tolist() for a in t] for t in row] for row in idx2]}
+                wc, idx = wc2, idx2
+                bad = "second-differs"
             cobs = "(Some (%s, %s, %s))" % (clist([dl(r) for r in wc[0]]), clist([dl(r) for r in wc[1]]),
                                             clist([clist([ctuple(t) for t in row]) for row in idx]))
-            if not works:
+            if bad is None and not works:
                 bad = "indexing"
-            elif not stable:
+            elif bad is None and not stable:
                 bad = "unstable"
         else:
             obs = {"malformed_output": repr((wc, idx))[:500]}
@@ -136,39 +152,50 @@ def rolling_case(vd, spec, size, spacing, shape, region, adj, kind, pre=None):
         # (when direct indexing failed the tuples are still evaluated in Coq, which then reports the failing window)
         term = "c14_rolling %s %s %s %s %s %s %s %s %s" % (
             dl(layouts.logical(east)), dl(layouts.logical(north)), clist([cN(d) for d in east.shape]), cD(size), cspacing(spacing), cshape, creg, cZ(adj), cobs)
-        if bad == "indexing":
+        if bad in ("indexing", "second-differs"):
             term = "(match %s with Vok | Vskip => Vboth | v => v end)" % term
-    repro = layouts.repro_args(spec) + (layouts.repro_sequence(*pre) if pre else "") + "import verde; print(verde.rolling_window(c, **%r))" % (kw,)
+    repro = (layouts.repro_args(spec) + (layouts.repro_sequence(*pre) if pre else "")
+             + ("import numpy as np; r = %s\n" % rsrc if region is not None else "")
+             + "import verde; print(verde.rolling_window(c, %s)); print(verde.rolling_window(c, %s))" % (", ".join(kwsrc), ", ".join(kwsrc)))
     inp = {"fn": "rolling_window", "coordinates": layouts.describe(spec), "size": size, "spacing": spacing, "shape": shape,
-           "region": None if region is None else [float(r) for r in region], "adjust": ADJ[adj]}
+           "region": None if region is None else [float(r) for r in region], "region_passed_as": rkind if region is not None else None,
+           "adjust": ADJ[adj]}
     if pre:
         inp["after"] = {"earlier_call_on_same_objects": [pre[0][0], repr(pre[0][1])], "then_in_place": [list(o) for o in pre[1]]}
     return Case(inp, obs, term, repro, kind, nontrivial=(obs != "ValueError" and east.size > 0))
 
 
-def expanding_case(vd, spec, center, sizes, kind, pre=None):
+def expanding_case(vd, spec, center, sizes, kind, pre=None, ckind="tuple", skind="list"):
+    """ckind / skind: the kind of object the centre / the sizes are passed as (the same objects for both calls)"""
     coords = layouts.build(spec)
     if pre:
         layouts.first_call(vd, coords, pre[0])
         layouts.apply_ops(coords, pre[1])
     snap = layouts.snapshot(coords)
     east, north = coords[0], coords[1]
+    cobj, csrc = layouts.arg_obj(ckind, center)
+    sobj, ssrc = layouts.arg_obj(skind, sizes)
     bad = None
     try:
-        out = vd.expanding_window(coords, center=center, sizes=sizes)
+        out = vd.expanding_window(coords, center=cobj, sizes=sobj)
         ok = isinstance(out, list) and all(tuple_ok(t, east.ndim) for t in out)
         if ok:
             works = len(out) == len(sizes) and all(indexing_works(coords, t, center[0], center[1], s / 2) for t, s in zip(out, sizes))
-            out2 = vd.expanding_window(coords, center=center, sizes=sizes)
+            out2 = vd.expanding_window(coords, center=cobj, sizes=sobj)
             stable = layouts.unchanged(coords, snap) and same_tuples(out, out2)
             if pre:
-                stable = stable and same_tuples(out, vd.expanding_window(layouts.fresh(coords), center=center, sizes=sizes))
+                stable = stable and same_tuples(out, vd.expanding_window(layouts.fresh(coords), center=cobj, sizes=sobj))
             obs = {"indices": [[a.tolist() for a in t] for t in out], "direct_indexing_works": works,
-                   "second_call_identical_and_arguments_unchanged": bool(stable)}
+                   "second_call_identical_and_arguments_unchanged": bool(stable),
+                   "centre_and_sizes_objects_unchanged": layouts.same_values(cobj, center) and layouts.same_values(sobj, sizes)}
+            if not stable and layouts.unchanged(coords, snap) and isinstance(out2, list) and all(tuple_ok(t, east.ndim) for t in out2):
+                obs["second_call"] = {"indices": [[a.tolist() for a in t] for t in out2]}
+                out = out2
+                bad = "second-differs"
             cobs = "(Some %s)" % clist([ctuple(t) for t in out])
-            if not works:
+            if bad is None and not works:
                 bad = "indexing"
-            elif not stable:
+            elif bad is None and not stable:
                 bad = "unstable"
         else:
             obs = {"malformed_output": repr(out)[:500]}
@@ -184,10 +211,12 @@ def expanding_case(vd, spec, center, sizes, kind, pre=None):
     else:
         term = "c14_expanding %s %s %s %s %s %s %s" % (
             dl(layouts.logical(east)), dl(layouts.logical(north)), clist([cN(d) for d in east.shape]), cD(center[0]), cD(center[1]), dl(sizes), cobs)
-        if bad == "indexing":
+        if bad in ("indexing", "second-differs"):
             term = "(match %s with Vok | Vskip => Vboth | v => v end)" % term
-    repro = layouts.repro_args(spec) + (layouts.repro_sequence(*pre) if pre else "") + "import verde; print(verde.expanding_window(c, center=%r, sizes=%r))" % (tuple(center), list(sizes))
-    inp = {"fn": "expanding_window", "coordinates": layouts.describe(spec), "center": list(center), "sizes": list(sizes)}
+    repro = (layouts.repro_args(spec) + (layouts.repro_sequence(*pre) if pre else "")
+             + "import verde, numpy as np; ce = %s; sz = %s\nprint(verde.expanding_window(c, center=ce, sizes=sz)); print(verde.expanding_window(c, center=ce, sizes=sz))" % (csrc, ssrc))
+    inp = {"fn": "expanding_window", "coordinates": layouts.describe(spec), "center": list(center), "sizes": list(sizes),
+           "center_passed_as": ckind, "sizes_passed_as": skind}
     if pre:
         inp["after"] = {"earlier_call_on_same_objects": [pre[0][0], repr(pre[0][1])], "then_in_place": [list(o) for o in pre[1]]}
     return Case(inp, obs, term, repro, kind, nontrivial=(obs != "ValueError" and east.size > 0 and len(sizes) > 0))
@@ -295,7 +324,7 @@ def _generate(tier, seed, vd):
             arrs = [xs, ys]
             if i % 5 == 0:
                 arrs.append([rnd.uniform(-1e3, 1e3) for _ in xs])
-            cases.append(rolling_case(vd, layouts.arrange(rnd, arrs), size, spacing, shape, region if given else None, adj, stream))
+            cases.append(rolling_case(vd, layouts.arrange(rnd, arrs), size, spacing, shape, region if given else None, adj, stream, rkind=layouts.ARG_KINDS[i % 4]))
     # docstring examples
     g = vd.grid_coordinates((-5, -1, 6, 10), spacing=1)
     cases.append(rolling_case(vd, layouts.from_arrays(g), 2.0, 2.0, None, None, 0, "docstring"))
@@ -343,7 +372,7 @@ def _generate(tier, seed, vd):
                     sp = 2.25
             else:
                 sp, sh, adj = None, rnd.choice([(2, 3), (3, 2), (2, 2), (3, 4)]), 0
-            cases.append(rolling_case(vd, spec, size, sp, sh, reg, adj, "integer-dtype"))
+            cases.append(rolling_case(vd, spec, size, sp, sh, reg, adj, "integer-dtype", rkind=layouts.ARG_KINDS[(i // 2) % 4]))
         else:
             center = (rnd.randint(-3, 3) + rnd.choice([0.0, 0.5, 0.25, -0.5]), rnd.randint(-2, 2) + rnd.choice([0.0, 0.5, 0.75]))
             sizes = [rnd.choice([0.0, 0.5, 1.0, 1.5, 2.0, 3.0, 3.5, 5.0, 9.0]) for _ in range(rnd.randint(1, 4))]
@@ -370,11 +399,17 @@ def _generate(tier, seed, vd):
                     sp = 2.25
             else:
                 sp, sh, adj = None, rnd.choice([(2, 3), (3, 2), (2, 2), (3, 4)]), 0
-            cases.append(rolling_case(vd, layouts.arrange(rnd, arrs[:keep], dt=dts[:keep]), size, sp, sh, reg, adj, "mixed-dtype"))
+            cases.append(rolling_case(vd, layouts.arrange(rnd, arrs[:keep], dt=dts[:keep]), size, sp, sh, reg, adj, "mixed-dtype", rkind=layouts.ARG_KINDS[(i // 2) % 4]))
         else:
             center = (be + rnd.randint(0, we * 4) / 4, bn + rnd.randint(0, hn * 4) / 4)
             sizes = [rnd.choice([0.0, 0.5, 1.0, 1.5, 2.0, 3.0, 5.0, 9.0]) for _ in range(rnd.randint(1, 4))]
-            cases.append(expanding_case(vd, layouts.arrange(rnd, arrs[:keep], dt=dts[:keep]), center, sizes, "mixed-dtype"))
+            cases.append(expanding_case(vd, layouts.arrange(rnd, arrs[:keep], dt=dts[:keep]), center, sizes, "mixed-dtype", ckind=layouts.ARG_KINDS[(i // 2) % 4], skind=layouts.ARG_KINDS[(i // 8) % 4]))
+    # the region / centre / sizes handed over as every kind of object, the same object for both calls
+    for rk in layouts.ARG_KINDS:
+        cases.append(rolling_case(vd, layouts.from_arrays(g2), 2.0, 2.0, None, (-5.0, -1.0, 6.0, 10.0), 0, "argument-objects", rkind=rk))
+        cases.append(rolling_case(vd, layouts.from_arrays(g2), 1.0, None, (2, 3), (-6.0, 2.0, 3.0, 12.0), 0, "argument-objects", rkind=rk))
+        for sk in layouts.ARG_KINDS:
+            cases.append(expanding_case(vd, layouts.from_arrays(g), (-3.0, 8.0), [4.0, 1.0, 2.0], "argument-objects", ckind=rk, skind=sk))
     # shape= on clearly non-square regions (also non-square after shrinking), n_north != n_east, windows equal to a side
     gx, gy = np.meshgrid(np.arange(0.0, 21.0, 2.5), np.arange(0.0, 11.0, 2.5))
     for reg, size, shp in [((0.0, 20.0, 0.0, 10.0), 4.0, (3, 5)), ((0.0, 20.0, 0.0, 10.0), 4.0, (5, 3)), ((0.0, 20.0, 0.0, 10.0), 10.0, (2, 4)),
@@ -391,7 +426,7 @@ def _generate(tier, seed, vd):
         m = rnd.choice([6, 8, 10, 12, 15, 18])
         xs = [w + rnd.randint(0, int(width * 4)) / 4 for _ in range(m - 2)] + [reg[0], reg[1]]
         ys = [s0 + rnd.randint(0, int(height * 4)) / 4 for _ in range(m - 2)] + [reg[2], reg[3]]
-        cases.append(rolling_case(vd, layouts.arrange(rnd, [xs, ys]), size, None, shp, reg if rnd.random() < 0.6 else None, 0, "shape-nonsquare"))
+        cases.append(rolling_case(vd, layouts.arrange(rnd, [xs, ys]), size, None, shp, reg if rnd.random() < 0.6 else None, 0, "shape-nonsquare", rkind=layouts.ARG_KINDS[i % 4]))
     # sequences: a call, the SAME coordinate array objects modified in place, the call under test (must match the
     # model on the new values and a call on fresh copies)
     for i in range(nroll // 2):
@@ -435,7 +470,8 @@ def _generate(tier, seed, vd):
             if i % 3 == 0:
                 center = (xs[0], ys[0])
         arrs = [xs, ys] + ([[float(k) for k in range(m)]] if i % 4 == 0 else [])
-        cases.append(expanding_case(vd, layouts.arrange(rnd, arrs), center, sizes, "expanding-lattice" if lat else "expanding-random"))
+        cases.append(expanding_case(vd, layouts.arrange(rnd, arrs), center, sizes, "expanding-lattice" if lat else "expanding-random",
+                                    ckind=layouts.ARG_KINDS[i % 4], skind=layouts.ARG_KINDS[(i // 4) % 4]))
     # invalid arguments
     pts = (np.array([0.0, 1.0, 2.0, 3.0, 4.0]), np.array([0.0, 1.0, 2.0, 1.0, 3.0]))
     for size, sp, sh, reg, adj in [(1.0, None, None, None, 0), (1.0, 1.0, (2, 2), None, 0), (3.5, 1.0, None, None, 0), (3.0, 1.0, None, None, 0),
